@@ -51,6 +51,8 @@ def subst(e, m):
         return E("case", [(subst(c, m), subst(v, m)) for c, v in e.a[0]])
     if e.k == "in":
         return E("in", subst(e.a[0], m), e.a[1], e.a[2])
+    if e.k == "fn":
+        return E("fn", e.a[0], [subst(a, m) for a in e.a[1]])
     return e
 
 
@@ -111,10 +113,10 @@ def rewrites_of(prog):
         elif t.k == "filter":
             exprs = [(None, t.e)]
         for j, e in exprs:
-            if has_fn(e) or e.k in ("col", "lit", "null", "bool"):
+            if e.k in ("col", "lit", "null", "bool") or e.k == "call":
                 continue
             cs = cols_of(e)
-            if not cs or len(cs) > 3 or any("." in c for c in cs):
+            if not cs or len(cs) > 3 or any("." in c for c in cs) or "this" in cs:
                 continue
             params = [f"p{k}" for k in range(len(cs))]
             body = pp(subst(e, dict(zip(cs, params))), "full")
